@@ -28,8 +28,12 @@ LEVEL = ('decides: infeasibility is declared only for a conflict at decision lev
          'reason over every earlier level (U13); WAKE/READD of the nogood watchers (U14/U15). '
          'semantic-minimiser exactness (U18/U19), preprocessed permanent nogoods (U20), reified lazy '
          'reasons keep the literal (U21), equality halves merged when minimisation is off (U22), '
-         'conflict resolution always returns in the Solving state (U23). Does not decide soundness of '
-         'propagation, explanations or minimisation, nor completeness/termination of search')
+         'conflict resolution always returns in the Solving state (U23). Also runs the KERNEL BUNDLE '
+         '(rule ids …K<n>): the kernel rules every verdict depends on — predicate algebra, nogood '
+         'watchers, minimisers, conflict-analysis tables, nogood deletion, decision read-back, no-'
+         'learning resolver, constraint builders, reified reasons — wherever they are not already '
+         'registered here under another id. Does not decide soundness of propagation, explanations or '
+         'minimisation, nor completeness/termination of search')
 TECHNIQUE = "static analysis: dominance, who-may-construct, symbolic table recovery, typestate over rustc MIR"
 
 
@@ -662,3 +666,7 @@ def run(ctx, led):
     from . import C05 as _C05b, C17 as _C17b
     run_rule(led, "U26", "dropping an unsatisfiable-under-assumptions result restores the root state, so the next verdict is about the model (shared with C05-A1)", _C05b.a1, ctx)
     run_rule(led, "U27", "the …_at_trail_position queries agree on the inclusive position convention and look at the time of each hole (shared with C17-L16)", _C17b.l16, ctx)
+    from . import kernel as _kernel
+    _kernel.run_bundle(led, ctx, "U")
+    from . import kernel as _kernel2
+    _kernel2.run_lifecycle(led, ctx, "U")
